@@ -1,4 +1,4 @@
-\* C02: two pollers (+ workers), two ids, i1 queued twice, retry-then-ok bodies
+\* C03 fault-free: two pollers, r1 is stopped (kill and reroute)
 SPECIFICATION Spec
 CONSTANTS
   Inv = {"i1", "i2"}
@@ -8,21 +8,21 @@ CONSTANTS
   Mode = "disabled"
   RerouteOnCC = TRUE
   MaxRetries = 1
-  Outcome <- AllOk
-  Submissions <- SubDupQ
-  PollN = 2
+  Outcome <- RetryOk
+  Submissions <- SubMix
+  PollN = 1
   Pollers = {"r1", "r2"}
   Recoverers = {}
-  Stoppable = {}
+  Stoppable = {"r1"}
   MaxCrashes = 0
   TrackHist = FALSE
   RecoveryAbortsOnLostRace = FALSE
 CONSTRAINT Bounded
 INVARIANT TypeOK
-INVARIANT NoParallelBody
+INVARIANT NoStranded
 INVARIANT SuccessHasResult
+INVARIANT FailedHasException
 INVARIANT ChangeLogIsPath
+INVARIANT StoppedLeavesNothing
 PROPERTY CoreFollowsEdge
 PROPERTY CoreFinalAbsorbing
-PROPERTY ClaimsAlternate
-PROPERTY OnlyOwnerMoves
